@@ -28,7 +28,7 @@ CFG = {
                   "running the mode table / screen / kitty depth / keypad mode are exactly those of start-up. close_idempotent (every state), close_twice, close_while_suspended_writes_nothing (every "
                   "session). Signal and panic paths are model statements: the skeleton of openTty's goroutine is regenerated (facts_inputLoop) and signal_path_is_close / panic_path_is_close prove that "
                   "both write exactly what Close writes from every state. facts_savedValueWrites pins that appIDLast / userCursorStyle / kittyFlags are written only by start-up code. "
-                  "The token sequences of the model are compared with the real bytes of start-up/SetAppID/Suspend/Resume/Close, and the real bytes are run through the mode terminal.",
+                  "The token sequences of the model are compared with the real bytes of start-up/SetAppID/Suspend/Resume/Close and of the signal- and panic-triggered shutdown (model = the regenerated signal arm / recover handler), and the real bytes are run through the mode terminal.",
     "level_note": "Prior values: modes Vaxis never queries are assumed reset before start-up, the pointer shape 'text', the cursor style the terminal reports (0 if it does not answer) and the id of its "
                   "OSC 176 reply are the prior ones; a terminal ignores private modes it did not advertise. balanced_all_guards restates balanced over guard functions (every String -> Bool that is false outside the nine guard variables is one of the 512 assignments: C04Guards.v_eq); the I/O-error returns of Resume (expr: guards) are assumed not taken. "
                   "Sessions: while suspended the application only resumes or shuts down (Resume without Suspend / rendering while suspended are skipped). "
